@@ -42,6 +42,19 @@ RowDiff(cells, p) ==
         ELSE IF cells[3] = "" /\ cells[4] = "" /\ cells[6] = "" /\ cells[9] = "" THEN {} ELSE {"row_not_blank"})
   \cup (IF cells[10] = ToString(p.n) THEN {} ELSE {"row_messages"})
 
+\* the three columns the property does not name (heading, vertical speed, speed): compared all the same, owner "I" -
+\* a disagreement is drift between this description and the program, not a verdict on C18
+F1(t) == ToString(t \div 10) \o "." \o ToString(t % 10)
+RowDrift(cells, p) ==
+     (IF (p.hdg10 < 0 /\ cells[5] = "") \/ (p.hdg10 >= 0 /\ cells[5] \in {F1(p.hdg10), F1(p.hdg10 + 1)} \cup (IF p.hdg10 > 0 THEN {F1(p.hdg10 - 1)} ELSE {}))
+      THEN {} ELSE {"row_heading"})
+  \cup (IF (p.vr = -99999 /\ cells[7] = "") \/ (p.vr # -99999 /\ cells[7] = ToString(p.vr)) THEN {} ELSE {"row_vertical_speed"})
+  \cup (IF (p.spd < 0 /\ cells[8] = "") \/ (p.spd >= 0 /\ cells[8] \in {ToString(p.spd), ToString(p.spd + 1)} \cup (IF p.spd > 0 THEN {ToString(p.spd - 1)} ELSE {}))
+      THEN {} ELSE {"row_speed"})
+TableDrift(ev) ==
+  IF Len(ev.cells) # Len(ev.planes) THEN {}
+  ELSE UNION {RowDrift(ev.cells[i], ev.planes[i]) : i \in 1..Len(ev.planes)}
+
 TableDiff(ev) ==
   IF Len(ev.cells) # Len(ev.planes) THEN {"row_count"}
   ELSE UNION {RowDiff(ev.cells[i], ev.planes[i]) : i \in 1..Len(ev.planes)}
@@ -99,8 +112,10 @@ CoverageDrift(ev) ==
   /\ \A i \in 1..Len(ev.positions) : ~OnTie(ev.positions[i].lat) /\ ~OnTie(ev.positions[i].lon)
   /\ ev.cov # Populate(cov, ev.positions)
 
-Judge(ev) == LET d == IF ev.ev = "screen" THEN ScreenDiff(ev) ELSE {} IN
-             /\ (IF d = {} THEN TRUE ELSE PrintT(<<"VERDICT", l, "screen|tab=" \o ToString(ev.tab), {<<"C18", f>> : f \in d}>>))
+Judge(ev) == LET d == IF ev.ev = "screen" THEN ScreenDiff(ev) ELSE {}
+                 dr == IF ev.ev = "screen" /\ ev.tab = 2 /\ ev.cells_valid = 1 THEN TableDrift(ev) ELSE {} IN
+             /\ (IF d \cup dr = {} THEN TRUE
+                 ELSE PrintT(<<"VERDICT", l, "screen|tab=" \o ToString(ev.tab), {<<"C18", f>> : f \in d} \cup {<<"I", f>> : f \in dr}>>))
              /\ (IF CoverageDrift(ev) THEN PrintT(<<"INFO", "MODEL-DRIFT", l, "coverage">>) ELSE TRUE)
 
 Init == l = 1 /\ total = 0 /\ most = 0 /\ lastplanes = <<>> /\ dirty = TRUE /\ cov = <<>>
